@@ -245,14 +245,33 @@ def oracle_units(ctx, where, clsname, us, ft, wf=True, marks=(), expected_units=
 def run_datatypes(ctx):
     rng = ctx.rng
     cases, info, env_objs = [], [], []
-    for i in range(ctx.n(1800, 30000)):
+    for i in range(ctx.n(1400, 30000)):
         kind = KINDS[i % len(KINDS)]
         obj, term, wf, marks, kw, exp = make_instance(rng, kind)
+        import copy as _copy
+        fresh = _copy.deepcopy(obj)
         us, ft = observe(obj, kw)
         ctx.case((kind, term), len(us) >= 2 or kind in ("rtf",) and len(us) >= 1, kind=f"datatypes:{kind}")
         oracle_units(ctx, f"datatypes:{kind}", type(obj).__name__, us, ft, wf, marks, exp, {"coq_term": term[:3000]})
         cases.append(pair(term, coq_list([pair(coq_Z(n), coq_str(t)) for n, t in us]), coq_str(ft)))
         info.append((kind, term))
+        # observer history: any sequence of observer calls (with any arguments) on the SAME object must answer like a fresh
+        # copy that has never been asked anything (instance-level caches, lazily stored state)
+        if i % 3 == 0:
+            import copy
+            argsets = [{}, {"include_image_captions": True}, {"include_image_captions": False}] if kind == "pptx" else [{}]
+            seq = [(rng.choice(["full", "units"]), rng.choice(argsets)) for _ in range(5)]
+            obj2 = copy.deepcopy(fresh)
+            for what, a_ in seq:
+                call = (lambda o: o.get_full_text(**a_)) if what == "full" else (
+                    lambda o: [(u.get_metadata().unit_number, u.get_text()) for u in o.iterate_units(**a_)])
+                got_, want_ = call(obj2), call(copy.deepcopy(fresh))
+                if got_ != want_:
+                    ctx.finding(f"datatypes:{kind}:observer-depends-on-call-history",
+                                f"{type(obj).__name__}: {'get_full_text' if what == 'full' else 'iterate_units'}({a_}) after the "
+                                f"calls {seq} differs from the same call on a fresh copy", {"coq_term": term[:3000], "sequence": seq,
+                                                                                          "got": got_, "fresh": want_})
+                    break
         if len(env_objs) < 100:
             env_objs.append((obj, kw, term[:400]))
     pre = "From Coq Require Import ZArith List.\nFrom S2T Require Import Lib.PyStr C03.Lib C03.Model C03.Corr.\nImport ListNotations.\n"
@@ -334,7 +353,7 @@ def run_ppt(ctx):
     rng = ctx.rng
     blk = lambda b: pair(coq_str(b.text), coq_opt(b.text_type, coq_Z))
     c1, c2, info2 = [], [], []
-    for i in range(ctx.n(500, 5000)):
+    for i in range(ctx.n(350, 5000)):
         body, evs, npers, per_slide = gen_ppt_events(rng, px)
         got = px._parse_slide_list_container(body)
         c1.append(pair(coq_list(evs), coq_list([coq_list([blk(b) for b in sl]) for sl in got])))
@@ -346,7 +365,7 @@ def run_ppt(ctx):
                         f"(empty slides dropped, later slides renumbered)",
                         {"slide_list_body_hex": body.hex()[:4000], "per_slide_texts": per_slide,
                          "got": [[b.text for b in sl] for sl in got]})
-    for i in range(ctx.n(400, 4000)):
+    for i in range(ctx.n(300, 4000)):
         data, conts = b"", []
         for _ in range(rng.randint(0, 2)):
             body, evs, npers, per_slide = gen_ppt_events(rng, px)
@@ -586,7 +605,7 @@ def run_docx(ctx):
     styles = ["Heading 1", "heading2", " Heading 3", "HEADING 1", "Heading1", "Normal", None, "Title", "Heading", "Heading 2x",
               "Heading 2"]
     cases, info = [], []
-    for i in range(ctx.n(700, 8000)):
+    for i in range(ctx.n(500, 8000)):
         n = rng.randint(0, 9)
         shape = rng.choice(["free", "free", "clean", "preface", "breaks"])
         paras = []
@@ -679,7 +698,7 @@ def run_doc(ctx):
                   "ſubsection {k}", "Intro {k}"]
     seps = ["\n", "\n", "\n", "\r\n", "\x0b", " ", "\x0c"]
     cases, info, split_cases = [], [], []
-    for i in range(ctx.n(700, 7000)):
+    for i in range(ctx.n(450, 7000)):
         n = rng.choice([0, 1, 2, 3, 4, 5, 6, 8])
         shape = rng.choice(["free", "free", "headings-only", "clean", "nohead"])
         raw = []
@@ -775,7 +794,7 @@ def run_odt(ctx):
     rng = ctx.rng
     styles = [None, "Standard", "P1", "Table_20_Contents", "Table Heading", "My_Table_x", "Text_20_body", "Tables"]
     cases, info, env_objs = [], [], []
-    for i in range(ctx.n(700, 7000)):
+    for i in range(ctx.n(450, 7000)):
         n = rng.choice([0, 1, 2, 3, 4, 5, 6, 8])
         shape = rng.choice(["free", "free", "headings-only", "clean", "nohead"])
         paras, kinds = [], []
@@ -866,8 +885,10 @@ def run_odt(ctx):
 
 
 # ----------------------------------------------------------------------------- tiny document writers (harness only)
-def make_pdf(pages):
-    """pages: list of None (no content stream text) | str (text shown with Tj; may be whitespace)."""
+def make_pdf(pages, catalog_extra=b"", nested=False):
+    """pages: list of None (no content stream text) | str (text shown with Tj; may be whitespace).
+    catalog_extra: raw entries added to the catalog dictionary (/PageLabels ..., /ViewerPreferences ...);
+    nested: put the pages under an intermediate /Pages node."""
     objs = {}
     n = len(pages)
     kids = []
@@ -885,8 +906,17 @@ def make_pdf(pages):
         objs[cs] = b"<< /Length %d >>\nstream\n" % len(stream) + stream + b"\nendstream"
         objs[pg] = (b"<< /Type /Page /Parent 2 0 R /MediaBox [0 0 612 792] /Resources << /Font << /F1 3 0 R >> >> "
                     b"/Contents %d 0 R >>" % cs)
-    objs[1] = b"<< /Type /Catalog /Pages 2 0 R >>"
-    objs[2] = b"<< /Type /Pages /Count %d /Kids [%s] >>" % (n, b" ".join(b"%d 0 R" % k for k in kids))
+    objs[1] = b"<< /Type /Catalog /Pages 2 0 R " + catalog_extra + b" >>"
+    if nested and n >= 2:
+        mid = num
+        num += 1
+        half = n // 2
+        objs[mid] = b"<< /Type /Pages /Parent 2 0 R /Count %d /Kids [%s] >>" % (half, b" ".join(b"%d 0 R" % k for k in kids[:half]))
+        for k in kids[:half]:
+            objs[k] = objs[k].replace(b"/Parent 2 0 R", b"/Parent %d 0 R" % mid)
+        objs[2] = b"<< /Type /Pages /Count %d /Kids [%d 0 R %s] >>" % (n, mid, b" ".join(b"%d 0 R" % k for k in kids[half:]))
+    else:
+        objs[2] = b"<< /Type /Pages /Count %d /Kids [%s] >>" % (n, b" ".join(b"%d 0 R" % k for k in kids))
     out = bytearray(b"%PDF-1.4\n%\xe2\xe3\xcf\xd3\n")
     offs = {}
     for k in sorted(objs):
@@ -1383,7 +1413,7 @@ def run_order(ctx):
               "HTTP://X/SLIDE", ""]
     targets = ["slides/slide1.xml", "slides/slide2.xml", "../slides/slide3.xml", "slide4.xml", "/ppt/slides/slide5.xml",
                "../a/../b.xml", "", "slideMasters/slideMaster1.xml", "slides/slide1.xml"]
-    for i in range(ctx.n(250, 2500)):
+    for i in range(ctx.n(200, 2500)):
         rels = [(rng.choice(ids), rng.choice(types_), rng.choice(targets)) for _ in range(rng.randint(0, 6))]
         sld = [rng.choice(ids + [None, "rId99"]) for _ in range(rng.randint(0, 6))]
         if rng.random() < 0.5:      # a regular deck: unique ids, all slides
@@ -1428,7 +1458,7 @@ def run_order(ctx):
                    (f"{len(failing)} disagreements, first: {c2[failing[0]][:300] if failing else ''} " + log)[:600])
     # ---- EPUB: manifest / spine / chapter gate / spine loop on generated packages, inputs read off the parsed OPF
     c3, i3 = [], []
-    for i in range(ctx.n(120, 1200)):
+    for i in range(ctx.n(80, 1200)):
         opf_dir = rng.choice(["", "OEBPS", "a/b"])
         pre_ = opf_dir + "/" if opf_dir else ""
         k = rng.randint(1, 6)
@@ -1495,7 +1525,7 @@ def run_order(ctx):
         for ch in cont.chapters:
             j_ = ch.text.split("x")[0].replace("Ch", "") if ch.text.startswith("Ch") else None
             d_ = next((d for d in reversed(docs) if d["id"] == eff[ch.chapter_number - 1] and d["href"] not in (None, "")), None)
-            if j_ and d_ is not None and d_["path"] is not None and not d_["path"].endswith(f"c{j_}.xhtml"):
+            if j_ and d_ is not None and d_["path"] is not None and not d_["path"].rsplit("/", 1)[-1].startswith(f"c{j_}."):
                 ctx.finding("order:epub:chapter-text-from-other-spine-item", f"EPUB chapter {ch.chapter_number} (spine item "
                             f"{eff[ch.chapter_number - 1]!r}) carries the text of c{j_}.xhtml", {"spine": spine, "docs": i3[-1][2]})
     ok, failing, log = coq_eval_shards(ctx, "epubo", pre, "epub_case", c3, shard=100,
@@ -1645,7 +1675,24 @@ def run_end_to_end(ctx):
         exp = tokens_for(kinds)
         texts = [(" ".join(sorted(e)) + " page text") if e else (None if k == "blank" else rng.choice([" ", "   "]))
                  for e, k in zip(exp, kinds)]
-        data = make_pdf(texts)
+        # optional catalog structures that carry an alternative numbering / ordering of pages
+        extra = b""
+        if rng.random() < 0.5:
+            n_ = len(kinds)
+            cut = rng.randint(0, max(n_ - 1, 0))
+            ranges = rng.choice([
+                [(0, b"/S /r"), (cut, b"/S /D")],                         # roman front matter, body restarts at 1
+                [(0, b"/S /D /St %d" % rng.choice([2, 190, 1000]))],      # an excerpt keeping its original numbers
+                [(0, b"/S /D /P (A-)")], [(0, b"/S /A")], [(0, b"/S /D"), (cut, b"/S /D /St 1")],
+                [(0, b"/P (cover)"), (min(1, n_ - 1), b"/S /D /St %d" % rng.choice([1, 5]))]])
+            seen_, nums_ = set(), b""
+            for start, spec in ranges:
+                if start not in seen_:
+                    seen_.add(start); nums_ += b" %d << %s >>" % (start, spec)
+            extra += b"/PageLabels << /Nums [" + nums_ + b" ] >> "
+        if rng.random() < 0.3:
+            extra += b"/ViewerPreferences << /Direction /R2L >> /PageLayout /TwoPageRight "
+        data = make_pdf(texts, extra, nested=rng.random() < 0.4)
         try:
             outs = list(pdf_extractor.read_pdf(io.BytesIO(data), "x.pdf"))
         except Exception as e:  # noqa
@@ -1875,6 +1922,44 @@ def run_end_to_end(ctx):
             oracle_units(ctx, "e2e:ods", type(c).__name__, us, ft, True, (), k, rp)
             sheet_cover("e2e:ods", us, sheets, lambda v: ("true" if v else "false") if isinstance(v, bool) else str(v), rp)
             history.append(("e2e:ods", (lambda d=sdoc: ods_extractor.read_ods(io.BytesIO(d), "x.ods")), (us, ft), rp))
+    # size thresholds: documents larger than 64 KiB / 256 KiB / 1 MiB whose non-ASCII text and last tokens come late
+    big_sizes = [70_000, 70_000, 140_000, 300_000] + ([1_100_000] if ctx.tier == "thorough" or rng.random() < 0.5 else [])
+    for sz in big_sizes:
+        docno[0] += 1
+        d_ = docno[0]
+        line = "2024-01-01 INFO plain ascii log line number %06d\n"
+        head = "".join(line % k_ for k_ in range(sz // len(line % 0) + 1))
+        late = [f"Tk{d_}x1q Gr\u00f6\u00dfe \u20ac 12,50 \u2013 Stra\u00dfe", f"Tk{d_}x2q na\u00efve caf\u00e9 \u00e5ngstr\u00f6m",
+                f"Tk{d_}x3q end"]
+        early_non_ascii = rng.random() < 0.3
+        text = (("\u00e4 early\n" if early_non_ascii else "") + f"Tk{d_}x0q first\n" + head + "\n".join(late) + "\n")
+        for ext, reader in ((".txt", plain_extractor.read_plain_text), (".csv", plain_extractor.read_plain_text)):
+            try:
+                outs = list(reader(io.BytesIO(text.encode("utf-8")), "big" + ext))
+            except Exception as e:  # noqa
+                ctx.finding("e2e:plain:large-document-rejected", f"read_plain_text raised {type(e).__name__} on a {len(text)}-"
+                            "character UTF-8 text", {"size": len(text)})
+                continue
+            for c in outs:
+                us, ft = observe(c)
+                ctx.case(("e2e-plain-large", sz, ext, early_non_ascii), True, kind="e2e:plain-large")
+                body = us[0][1] if us else ""
+                missing = [l_ for l_ in late + [f"Tk{d_}x0q first"] if l_ not in body]
+                if missing or len(us) != 1:
+                    ctx.finding("e2e:plain:late-text-of-large-document-not-returned",
+                                f"plain text of {len(text.encode('utf-8'))} bytes (UTF-8, first non-ASCII character "
+                                f"{'early' if early_non_ascii else 'after ' + str(len(head)) + ' ASCII bytes'}): lines missing "
+                                f"from the unit: {missing[:2]}", {"size": len(text), "late_lines": late,
+                                                                  "tail_of_unit": body[-300:], "ascii_prefix_bytes": len(head)})
+                oracle_units(ctx, "e2e:plain", type(c).__name__, us, ft, True, (), 1, {"size": len(text)})
+        hdoc = "<html><body><pre>" + head[: sz] + "</pre>" + "".join(f"<p>{l_}</p>" for l_ in late) + "</body></html>"
+        for c in html_extractor.read_html(io.BytesIO(hdoc.encode("utf-8")), "big.html"):
+            us, ft = observe(c)
+            ctx.case(("e2e-html-large", sz), True, kind="e2e:html-large")
+            missing = [l_ for l_ in late if l_ not in (us[0][1] if us else "")]
+            if missing:
+                ctx.finding("e2e:html:late-text-of-large-document-not-returned", f"HTML of {len(hdoc)} characters: paragraphs "
+                            f"missing from the unit: {missing[:2]}", {"size": len(hdoc), "late_lines": late})
     try:
         import openpyxl
     except Exception:  # noqa
@@ -1975,6 +2060,8 @@ def run(ctx):
     ctx.trusted += [
         "G-dump: tools/props/c03.py prints str.isspace()/strip() set of the running CPython and ppt_extractor._TITLE_TYPES/"
         "_BODY_TYPES/PPT_TEXT_TYPE_NOTES as Coq literals",
+        "hand-written model coq/C03/Order.v of pptx _compute_slide_order, zip_utils.resolve_part_name, epub _parse_manifest/"
+        "_parse_spine/_extract_chapter gate + spine loop, tied by an ast inventory and differential runs",
         "hand-written model coq/C03/Odf.v of odp_extractor._iter_slide_frames/_extract_slide (frame collection, position "
         "sort, title/body/other) and ods_extractor._iter_sheet_rows/_extract_sheet (repeats, trimming, text), tied by an "
         "ast shape inventory and by differential runs on fixtures and generated documents translated from the parsed XML",
@@ -1988,7 +2075,9 @@ def run(ctx):
     ctx.assumptions += ["CPython 3.12 str.strip()/str.join semantics as modelled in C03/Lib.v (validated differentially)",
                         "extractors store slide/chapter numbers as modelled (pptx enumerate, epub spine counter)"]
     gen_tables(ctx)
-    ctx.prove("C03/Props.v", ["C03/ProofsX.vo", "C03/ProofsM.vo", "C03/ProofsS.vo", "C03/ProofsD.vo", "C03/ProofsO.vo"], expected=[
+    ctx.prove("C03/Props.v", ["C03/ProofsX.vo", "C03/ProofsM.vo", "C03/ProofsS.vo", "C03/ProofsD.vo", "C03/ProofsO.vo", "C03/ProofsR.vo"], expected=[
+        "C03_pptx_slide_order_follows_sldIdLst", "C03_pptx_slide_order_rel_order_irrelevant", "C03_resolve_absolute_ignores_base",
+        "C03_resolve_segments_clean_partial", "C03_epub_read_numbers", "C03_epub_chapter_of_spine_position",
         "C03_odp_slide_texts_exact", "C03_odp_unit_of_page", "C03_odp_read_numbers", "C03_odp_groups_transparent",
         "C03_ods_sheet_cells_exact", "C03_ods_unit_of_sheet", "C03_ods_read_numbers",
         "C03_docx_sections_cover_partial", "C03_doc_numbers_strict", "C03_odt_numbers_strict", "C03_doc_body_lines_exact",
@@ -2027,7 +2116,9 @@ META = {
     "level_note": "Outside the model (third-party / runtime, stated not skipped): XML parsing (ElementTree), "
                   "_parse_odf_length_to_px float values (enter the ODP sort as order-isomorphic integers; NaN keys excluded), "
                   "_get_text_recursive/_iter_paragraphs and _extract_cell_value (recorded), pypdf/openpyxl/xlrd readers, "
-                  "PPTX/EPUB/PDF XML-to-dataclass walkers (end-to-end generated documents only). "
+                  "PPTX/EPUB per-slide and per-chapter text walkers and the PDF page loop around pypdf (end-to-end generated "
+                  "documents only; slide order, href resolution, manifest/spine and the chapter gate ARE modelled in Order.v), "
+                  "rtf _strip_rtf_full_with_pages tokeniser (only its flush_page splitting is modelled). "
                   "Trusted: Coq kernel+VM; the hand-written models (validated differentially on every run); regex engine, "
                   "text decoding/cleaning, pypdf/openpyxl/xlrd as oracles.",
 }
